@@ -297,6 +297,148 @@ func genCase(r *prng.R, id string) proto.Case {
 	return proto.Case{ID: id, Ops: ops}
 }
 
+// ---------------------------------------------------------------- flow references
+
+// genRefCase: 2-3 user flows with globally unique processor keys, referencing each other ACYCLICALLY (flow i
+// only references flows j < i: chains and diamonds), in both directions, with the canonical patterns
+// (request: `flow g end -> P`, response: `P -> flow g start`), the mirrored ones (which the engine builds
+// asymmetrically), references declared before/after the stream entry, unresolvable references and
+// referenced directions without stream entry.
+func genRefCase(r *prng.R, id string) proto.Case {
+	c := &caseCfg{ptypes: vocab}
+	nf := r.Range(2, 3)
+	types := []string{"PA", "PU", "PU", "PM"}
+	var order []string
+	for i := 1; i <= nf; i++ {
+		f := &flowDef{name: fmt.Sprintf("f%d", i), kind: "user"}
+		n := r.Range(1, 3)
+		keys := make([]string, n)
+		pts := make([]*ptypeDef, n)
+		for k := 0; k < n; k++ {
+			keys[k] = fmt.Sprintf("%c%d", 'A'+k, i)
+			pts[k] = ptypeByName(prng.Pick(r, types))
+			f.procs = append(f.procs, [2]string{keys[k], pts[k].name})
+		}
+		// which flows this one references
+		var refs []string
+		for j := 1; j < i; j++ {
+			if r.Chance(70) {
+				refs = append(refs, fmt.Sprintf("f%d", j))
+			}
+		}
+		if len(refs) == 0 && i > 1 {
+			refs = append(refs, fmt.Sprintf("f%d", r.Range(1, i-1)))
+		}
+		if r.Chance(4) {
+			refs = append(refs, "nope")
+		}
+		pickCond := func(k int, dir string) string {
+			cs := validConds(pts[k], dir)
+			if len(cs) == 0 {
+				return ""
+			}
+			return prng.Pick(r, cs)
+		}
+		for _, dir := range []string{"req", "res"} {
+			var cs []connDef
+			// a small chain/branch over the own nodes
+			entry := connDef{sStart, endp{'P', keys[0], ""}}
+			withEntry := !(dir == "res" && r.Chance(15))
+			for k := 0; k < n; k++ {
+				if k+1 < n {
+					cs = append(cs, connDef{endp{'P', keys[k], pickCond(k, dir)}, endp{'P', keys[k+1], ""}})
+					if r.Chance(30) {
+						cs = append(cs, connDef{endp{'P', keys[k], pickCond(k, dir)}, sEnd})
+					}
+				} else {
+					cs = append(cs, connDef{endp{'P', keys[k], pickCond(k, dir)}, sEnd})
+				}
+			}
+			usedEntryRef := false
+			for _, g := range refs {
+				canonical := r.Chance(75)
+				asEntry := (dir == "req") == canonical // request canonical = `flow g end -> first`
+				if r.Chance(20) {
+					continue // this direction does not use the reference
+				}
+				if asEntry {
+					ec := connDef{endp{'F', g, "end"}, endp{'P', keys[r.Intn(n)], ""}}
+					if r.Chance(5) {
+						ec.from.extra = "start" // wrong end: invalid connection configuration
+					}
+					cs = append([]connDef{ec}, cs...)
+					usedEntryRef = true
+				} else {
+					k := r.Intn(n)
+					rc := connDef{endp{'P', keys[k], pickCond(k, dir)}, endp{'F', g, "start"}}
+					// put it somewhere, sometimes instead of the last `-> end`
+					pos := r.Intn(len(cs) + 1)
+					cs = append(cs[:pos], append([]connDef{rc}, cs[pos:]...)...)
+				}
+			}
+			if withEntry && (!usedEntryRef || r.Chance(10)) {
+				if r.Chance(25) {
+					cs = append(cs, entry) // stream entry declared last
+				} else {
+					cs = append([]connDef{entry}, cs...)
+				}
+			}
+			if len(cs) == 0 {
+				cs = append(cs, connDef{sStart, sEnd})
+			}
+			if dir == "req" {
+				f.req = cs
+			} else {
+				f.res = cs
+			}
+		}
+		c.flows = append(c.flows, f)
+		order = append(order, f.name)
+	}
+	prng.Shuffle(r, order)
+	if r.Chance(20) {
+		c.quotas = append(c.quotas, quotaDef{id: "q1", kind: "concurrent", wild: r.Chance(50)})
+	}
+	ops := c.opLines()
+	ops = append(ops, "load order="+strings.Join(order, ","))
+	// oracle: every flow may execute any processor key (nodes of referenced flows run under the outer flow's name)
+	for k := 0; k < 6; k++ {
+		dir := "req"
+		if k >= 4 {
+			dir = "res"
+		}
+		var items []string
+		for _, outer := range c.flows {
+			for _, inner := range c.flows {
+				for _, p := range inner.procs {
+					pt := ptypeByName(p[1])
+					var names []string
+					for _, o := range pt.outs {
+						names = append(names, o.name)
+					}
+					for _, d := range []string{"req", "res"} {
+						if dir == "res" && d == "req" {
+							continue
+						}
+						var v string
+						switch {
+						case r.Chance(2):
+							v = "x"
+						case d == "req" && canAnswer(pt) && r.Chance(35):
+							v = "e:" + proto.Enc(prng.Pick(r, names))
+						default:
+							v = "n:" + proto.Enc(prng.Pick(r, names))
+						}
+						items = append(items, proto.Enc(outer.name)+"/"+proto.Enc(p[0])+"/"+d+"="+v)
+					}
+				}
+			}
+		}
+		ops = append(ops, "txn dir="+dir+" o="+joinOr(items, ","))
+	}
+	return proto.Case{ID: id, Ops: ops}
+}
+
 // ---------------------------------------------------------------- exhaustive small scope (thorough tier)
 
 type candConn struct{ c connDef }
@@ -404,6 +546,9 @@ func gen(r *prng.R, f proto.Flags, emit func(proto.Case)) {
 	n *= f.Budget
 	for k := 0; k < n; k++ {
 		emit(genCase(r.Fork(), fmt.Sprintf("g%d", k+1)))
+	}
+	for k := 0; k < n; k++ {
+		emit(genRefCase(r.Fork(), fmt.Sprintf("r%d", k+1)))
 	}
 	if f.Tier == "thorough" {
 		genExhaustive(emit)
